@@ -117,7 +117,7 @@ def run_rules(pid, ctx, only_rule=None):
             tb = traceback.format_exc(limit=6)
             errors.append(f'{rule_id}: internal error {type(exc).__name__}: {exc}\n{tb}')
         n_obl = len(res.instances)
-        if not errors and floor is not None and n_obl < floor:
+        if not errors and floor is not None and n_obl < floor and not res.findings:
             errors.append(f'{rule_id}: only {n_obl} instances enumerated, floor confirmed by hand is {floor} '
                           f'(enumeration collapsed: absence of instances proves nothing)')
         results.append(res)
